@@ -10,8 +10,8 @@ import ast
 from fractions import Fraction
 
 from ..cfg import DataFlow
-from ..model import AnalysisError, FuncInfo, bind_args, call_name, dotted, last_attr, module_constants, norm_text, \
-    walk_no_nested
+from ..model import AnalysisError, FuncInfo, bind_args, call_name, dotted, kw, last_attr, module_constants, \
+    norm_text, walk_no_nested
 from ..terms import FlowNormalizer, Normalizer, Poly
 
 FD = "abtem.finite_difference"
@@ -557,3 +557,989 @@ def run(ctx) -> None:  # noqa: F811
         else:
             raise AnalysisError(f"{cons}: cannot see how the array is extended before `{norm_text(kcalls[0])[:40]}`")
     _inner_run_c37b(ctx)
+
+
+# =====================================================================================================================
+# ---- added after the mutation sweep: the kernels stay inside the padded array and cover the cropped region
+# (R-INTERIOR), every compiled kernel accumulates into a buffer of its own (R-KERNELOUT), the device wrapper launches
+# the kernel on (input, returned buffer) with a covering grid (R-LAUNCH), the stencil handed to LaplaceOperator is the
+# periodic one (R-WRAPPED), the exponential series is sum_k Op^k/k! (R-EXPSERIES, R-RELATIVE, R-OPERATOR-ROLE)
+def _own_nested(f: ast.FunctionDef):
+    """nested function definitions at any depth, with the chain of enclosing definitions (outermost first)."""
+    out = []
+
+    def rec(node, chain):
+        for ch in ast.iter_child_nodes(node):
+            if isinstance(ch, ast.FunctionDef):
+                out.append((ch, chain))
+                rec(ch, chain + [ch])
+            elif not isinstance(ch, (ast.ClassDef, ast.Lambda)):
+                rec(ch, chain)
+
+    rec(f, [])
+    return out
+
+
+def _sign(p: Poly, positive: set[str]):
+    """'nonneg' / 'neg' / None for a polynomial whose atoms in `positive` are integers >= 1."""
+    if not p.terms:
+        return "nonneg"
+    for mono in p.terms:
+        for a, e in mono:
+            if _bare(a) not in positive and a not in positive:
+                return None
+    cs = list(p.terms.values())
+    if all(c >= 0 for c in cs):
+        return "nonneg"
+    if all(c <= 0 for c in cs):
+        return "neg"
+    # mixed signs: decide linear forms c0 + c1*x with x >= 1 when the sum of the coefficients decides it
+    if all(len(m) <= 1 and all(e == 1 for _, e in m) for m in p.terms):
+        const = p.terms.get((), Fraction(0))
+        rest = [c for m, c in p.terms.items() if m != ()]
+        if all(c >= 0 for c in rest) and const + sum(rest) >= 0:
+            return "nonneg"  # minimum at x = 1
+        if all(c <= 0 for c in rest) and const + sum(rest) < 0:
+            return "neg"  # maximum at x = 1
+    return None
+
+
+def _range_of(loop: ast.For):
+    a = loop.iter.args
+    if len(a) == 1:
+        return Poly.const(0), Normalizer().norm(a[0])
+    if len(a) == 2:
+        return Normalizer().norm(a[0]), Normalizer().norm(a[1])
+    return None
+
+
+def _guard_bounds(test: ast.expr, var: str):
+    """(lo, hi) polynomials (hi exclusive) the guard imposes on `var`; missing sides are None."""
+    lo = hi = None
+    parts = test.values if isinstance(test, ast.BoolOp) and isinstance(test.op, ast.And) else [test]
+    for c in parts:
+        if not isinstance(c, ast.Compare):
+            continue
+        seq = [c.left] + list(c.comparators)
+        for (l, op, r) in zip(seq, c.ops, seq[1:]):
+            lv = isinstance(l, ast.Name) and l.id == var
+            rv = isinstance(r, ast.Name) and r.id == var
+            if lv == rv:
+                continue
+            other = Normalizer().norm(r if lv else l)
+            if isinstance(op, (ast.Lt, ast.LtE)):
+                strict = isinstance(op, ast.Lt)
+                if lv:  # var < other
+                    hi = other if strict else other + Poly.const(1)
+                else:  # other < var
+                    lo = other + Poly.const(1) if strict else other
+            elif isinstance(op, (ast.Gt, ast.GtE)):
+                strict = isinstance(op, ast.Gt)
+                if lv:  # var > other
+                    lo = other + Poly.const(1) if strict else other
+                else:  # other > var
+                    hi = other if strict else other + Poly.const(1)
+    return lo, hi
+
+
+def _parents(root: ast.AST) -> dict:
+    par = {}
+    for n in ast.walk(root):
+        for ch in ast.iter_child_nodes(n):
+            par[ch] = n
+    return par
+
+
+def _in_body(par: dict, node: ast.AST, holder: ast.AST, field: str) -> bool:
+    """is `node` inside holder.<field> (a statement list)?"""
+    cur = node
+    while cur in par and par[cur] is not holder:
+        cur = par[cur]
+    return cur in par and any(cur is s for s in getattr(holder, field, []))
+
+
+def _kernel_geometry(outer: FuncInfo, k: ast.FunctionDef, loop: ast.For, kv: str):
+    """index ranges of one stencil kernel: per array position the pixel variable, its range [lo, hi), the dimension
+    name, and whether the stencil offset is added there."""
+    qual = f"{outer.qualname}.{k.name}"
+    arr = k.args.args[0].arg
+    par = _parents(k)
+    dims = None
+    for st in ast.walk(k):
+        if isinstance(st, ast.Assign) and isinstance(st.targets[0], ast.Tuple) and isinstance(st.value, ast.Attribute) \
+                and st.value.attr == "shape" and isinstance(st.value.value, ast.Name) and st.value.value.id == arr \
+                and all(isinstance(e, ast.Name) for e in st.targets[0].elts):
+            dims = [e.id for e in st.targets[0].elts]
+    if dims is None:
+        raise AnalysisError(f"{qual}: the dimensions of `{arr}` are not unpacked from its shape")
+    klo, khi = _range_of(loop)
+    samples = [s for st in loop.body for s in ast.walk(st) if isinstance(s, ast.Subscript) and
+               isinstance(s.value, ast.Name) and s.value.id == arr and isinstance(s.ctx, ast.Load)]
+    grid_vars: list[str] = []
+    for st in ast.walk(k):
+        if isinstance(st, ast.Assign) and isinstance(st.targets[0], ast.Tuple) and isinstance(st.value, ast.Call) \
+                and last_attr(st.value) == "grid":
+            grid_vars = [e.id for e in st.targets[0].elts if isinstance(e, ast.Name)]
+    axes: dict[int, dict] = {}
+    for s in samples:
+        idx = s.slice.elts if isinstance(s.slice, ast.Tuple) else [s.slice]
+        if len(idx) != len(dims):
+            raise AnalysisError(f"{qual}: sample `{norm_text(s)}` does not index all {len(dims)} dimensions")
+        for pos, e in enumerate(idx):
+            p = Normalizer().norm(e)
+            shifted = any(a == kv for m in p.terms for a, _ in m)
+            base = p - Poly.atom(kv) if shifted else p
+            if len(base.terms) != 1 or list(base.terms.values()) != [1] or len(next(iter(base.terms))) != 1:
+                raise AnalysisError(f"{qual}: sample index `{norm_text(e)}` is not <pixel> (+ {kv})")
+            var = next(iter(base.terms))[0][0]
+            ent = axes.setdefault(pos, {"var": var, "shifted": False, "dim": dims[pos]})
+            if ent["var"] != var:
+                raise AnalysisError(f"{qual}: array position {pos} is indexed by both `{ent['var']}` and `{var}`")
+            ent["shifted"] = ent["shifted"] or shifted
+    if not axes:
+        raise AnalysisError(f"{qual}: no samples of `{arr}` inside the offset loop")
+    for pos, ent in axes.items():
+        var = ent["var"]
+        loops = [l for l in ast.walk(k) if isinstance(l, ast.For) and isinstance(l.target, ast.Name) and l.target.id == var
+                 and isinstance(l.iter, ast.Call) and call_name(l.iter) in ("range", "prange") and _in_body(par, loop, l, "body")]
+        if len(loops) == 1 and _range_of(loops[0]) is not None:
+            ent["lo"], ent["hi"] = _range_of(loops[0])
+            ent["how"] = norm_text(loops[0].iter)
+            continue
+        if var in grid_vars:
+            lo, hi, how = Poly.const(0), None, []
+            for g in ast.walk(k):
+                if isinstance(g, ast.If) and _in_body(par, loop, g, "body"):
+                    l2, h2 = _guard_bounds(g.test, var)
+                    if l2 is not None:
+                        lo = l2
+                    if h2 is not None:
+                        hi = h2
+                    how.append(norm_text(g.test))
+            if hi is None:
+                raise AnalysisError(f"{qual}: no upper bound guards the thread index `{var}`")
+            ent["lo"], ent["hi"], ent["how"] = lo, hi, " and ".join(how)
+            continue
+        raise AnalysisError(f"{qual}: cannot find the range of the pixel index `{var}`")
+    return arr, dims, axes, klo, khi, grid_vars
+
+
+def _seq_elements(df, at: int, e: ast.expr, depth: int = 0):
+    """elements of a tuple/list expression built with +, * <int literal> and displays; a repetition whose count is
+    not a literal stands for an unknown number of leading elements and is returned as the marker `...`."""
+    if depth > 8:
+        raise AnalysisError("sequence expression too deep")
+    if isinstance(e, ast.Call) and call_name(e) in ("tuple", "list") and len(e.args) == 1:
+        return _seq_elements(df, at, e.args[0], depth + 1)
+    if isinstance(e, (ast.Tuple, ast.List)):
+        if any(isinstance(x, ast.Starred) for x in e.elts):
+            raise AnalysisError(f"starred element in `{norm_text(e)[:50]}`")
+        return list(e.elts)
+    if isinstance(e, ast.BinOp) and isinstance(e.op, ast.Add):
+        return _seq_elements(df, at, e.left, depth + 1) + _seq_elements(df, at, e.right, depth + 1)
+    if isinstance(e, ast.BinOp) and isinstance(e.op, ast.Mult):
+        seq, cnt = (e.left, e.right) if isinstance(e.left, (ast.Tuple, ast.List)) else (e.right, e.left)
+        if isinstance(seq, (ast.Tuple, ast.List)):
+            if isinstance(cnt, ast.Constant) and isinstance(cnt.value, int):
+                return _seq_elements(df, at, seq, depth + 1) * cnt.value
+            return [Ellipsis]
+    if isinstance(e, ast.Name):
+        d = df.single_def(at, e.id)
+        if d is not None and d.value is not None and d.kind in ("assign", "walrus"):
+            return _seq_elements(df, d.node, d.value, depth + 1)
+    raise AnalysisError(f"cannot enumerate the elements of `{norm_text(e)[:60]}`")
+
+
+def _pair(df, at, e):
+    els = _seq_elements(df, at, e)
+    if len(els) != 2 or any(x is Ellipsis for x in els):
+        raise AnalysisError(f"`{norm_text(e)[:40]}` is not a (before, after) pair")
+    return els
+
+
+def _boundary_wrapper(ctx, f: FuncInfo, df_outer: DataFlow, half: str):
+    """The pad/crop wrapper: -> (wrapper def, [(before, after)] x 2 pad widths, [(lower, upper)] x 2 crop bounds) as
+    polynomials in the stencil half width, or None when the halo is not built with pad()."""
+    nested = _own_nested(f.node)
+    cands = [(w, chain) for w, chain in nested if any(isinstance(c, ast.Call) and last_attr(c) == "pad"
+                                                      for c in walk_no_nested(w))]
+    if not cands:
+        return None
+    ctx.require(len(cands) == 1, f"{f.qualname}: {len(cands)} functions call pad()")
+    w, chain = cands[0]
+    dfw = DataFlow(w)
+    pad = next(c for c in walk_no_nested(w) if isinstance(c, ast.Call) and last_attr(c) == "pad")
+    pst = next(n for n in dfw.cfg.nodes if n.kind == "stmt" and n.ast is not None and any(x is pad for x in ast.walk(n.ast)))
+    pw = kw(pad, "pad_width") or (pad.args[1] if len(pad.args) > 1 else None)
+    ctx.require(pw is not None, f"{f.qualname}.{w.name}: pad width not found")
+    els = _seq_elements(dfw, pst.idx, pw)
+    ctx.require(len(els) >= 2 and els[-1] is not Ellipsis and els[-2] is not Ellipsis,
+                f"{f.qualname}.{w.name}: the pad widths of the two grid axes are not explicit")
+    # free variables of the wrapper: parameters of the enclosing definitions, bound at their call in the builder
+    env: dict[str, ast.expr] = {}
+    for encl in chain:
+        calls = [c for c in walk_no_nested(f.node) if isinstance(c, ast.Call) and isinstance(c.func, ast.Name)
+                 and c.func.id == encl.name]
+        if len(calls) == 1:
+            params = [a.arg for a in encl.args.args]
+            for p_, a_ in zip(params, calls[0].args):
+                env[p_] = a_
+            for k_ in calls[0].keywords:
+                if k_.arg:
+                    env[k_.arg] = k_.value
+            env["@call"] = calls[0]
+    at_outer = None
+    if "@call" in env:
+        for n in df_outer.cfg.nodes:
+            if n.kind == "stmt" and n.ast is not None and any(x is env["@call"] for x in ast.walk(n.ast)):
+                at_outer = n.idx
+    if at_outer is None:
+        at_outer = max(n.idx for n in df_outer.cfg.nodes if n.kind == "stmt")
+
+    def outer_poly(e: ast.expr) -> Poly:
+        nz = FlowNormalizer(df_outer, at_outer)
+        nz.no_inline.add(half)
+        return nz.norm(e)
+
+    def wpoly(e: ast.expr, at: int) -> Poly:
+        nz = FlowNormalizer(dfw, at)
+        p = nz.norm(e)
+        sub = {}
+        for a in p.atoms():
+            b = _bare(a)
+            if b in env and b != "@call":
+                sub[a] = outer_poly(env[b])
+        return p.subst(sub) if sub else p
+
+    pads = []
+    for el in els[-2:]:
+        b_, a_ = _pair(dfw, pst.idx, el)
+        pads.append((wpoly(b_, pst.idx), wpoly(a_, pst.idx)))
+    # the crop: the returned value is <result of the kernel>[slicing]
+    crops = None
+    rets = [r for r in walk_no_nested(w) if isinstance(r, ast.Return) and r.value is not None]
+    ctx.require(len(rets) == 1, f"{f.qualname}.{w.name}: expected one return")
+    rv = rets[0].value
+    rnode = dfw.cfg.node_of(rets[0]).idx
+    if isinstance(rv, ast.Name):
+        d = dfw.single_def(rnode, rv.id)
+        if d is not None and d.value is not None:
+            rv, rnode = d.value, d.node
+    ctx.require(isinstance(rv, ast.Subscript), f"{f.qualname}.{w.name}: the returned value is not a crop of the kernel result")
+    sl = _seq_elements(dfw, rnode, rv.slice if not isinstance(rv.slice, ast.Tuple) else rv.slice)
+    ctx.require(len(sl) >= 2 and sl[-1] is not Ellipsis and sl[-2] is not Ellipsis,
+                f"{f.qualname}.{w.name}: the crop of the two grid axes is not explicit")
+    crops = []
+    for el in sl[-2:]:
+        if isinstance(el, ast.Call) and call_name(el) == "slice" and len(el.args) == 2:
+            lo_, up_ = el.args
+        elif isinstance(el, ast.Slice) and el.lower is not None and el.upper is not None and el.step is None:
+            lo_, up_ = el.lower, el.upper
+        else:
+            raise AnalysisError(f"{f.qualname}.{w.name}: crop element `{norm_text(el)[:40]}` is not slice(lower, upper)")
+        crops.append((wpoly(lo_, rnode), wpoly(up_, rnode)))
+    return w, pads, crops, pad
+
+
+def _interior(ctx, f: FuncInfo, df: DataFlow, kernels, half: str) -> None:
+    bw = _boundary_wrapper(ctx, f, df, half)
+    pos_atoms = {half}
+    if bw is not None:
+        w, pads, crops, padcall = bw
+        wq = f"{f.qualname}.{w.name}"
+        for ax, (pd, cr) in zip(("x", "y"), zip(pads, crops)):
+            ctx.check(cr[0] == pd[0] and cr[1] == -pd[1], "R-INTERIOR", f"{wq}:crop undoes pad {ax}", f.loc(padcall),
+                      f"padded by ({pd[0].key()}, {pd[1].key()}), cropped [{cr[0].key()} : {cr[1].key()}]",
+                      f"grid axis {ax} is padded by ({pd[0].key()}, {pd[1].key()}) samples but the result is cropped with "
+                      f"[{cr[0].key()} : {cr[1].key()}]: the returned array is not the Laplacian on the original grid "
+                      "(wrong shape or shifted)", key_detail=f"crop-{ax}")
+    for k, (by_axis, sym, loop, kv, coefs, half_k) in kernels:
+        qual = f"{f.qualname}.{k.name}"
+        arr, dims, axes, klo, khi, grid_vars = _kernel_geometry(f, k, loop, kv)
+        positive = pos_atoms | set(dims)
+        n_axes = len(dims)
+        for pos in sorted(axes):
+            ent = axes[pos]
+            D = Poly.atom(ent["dim"])
+            low = ent["lo"] + (klo if ent["shifted"] else Poly.const(0))
+            high = D - ent["hi"] - ((khi - Poly.const(1)) if ent["shifted"] else Poly.const(0))
+            s_lo, s_hi = _sign(low, positive), _sign(high, positive)
+            if s_lo is None or s_hi is None:
+                raise AnalysisError(f"{qual}: cannot decide the sign of {low.key()} / {high.key()} (array position {pos})")
+            axn = pos - n_axes
+            ctx.check(s_lo == "nonneg" and s_hi == "nonneg", "R-INTERIOR", f"{qual}:reads inside the array axis {axn}",
+                      f.loc(loop), f"index range {ent['how']}" + (f" with offsets [{klo.key()}, {khi.key()})" if ent["shifted"] else ""),
+                      f"along array axis {axn} the pixel index runs over `{ent['how']}`" +
+                      (f" and the offset over [{klo.key()}, {khi.key()})" if ent["shifted"] else "") +
+                      f": the smallest index minus 0 is {low.key()}, the size minus 1 minus the largest index is "
+                      f"{high.key()} — the kernel reads and writes outside the (padded) array", key_detail=f"bounds{axn}")
+            if bw is not None and ent["shifted"]:
+                which = 0 if axn == -2 else 1
+                pd = pads[which]
+                c_lo = pd[0] - ent["lo"]  # first computed pixel is at or before the first kept pixel
+                c_hi = ent["hi"] - D + pd[1]  # last computed pixel at or after the last kept pixel
+                t_lo, t_hi = _sign(c_lo, positive), _sign(c_hi, positive)
+                if t_lo is None or t_hi is None:
+                    raise AnalysisError(f"{qual}: cannot decide the sign of {c_lo.key()} / {c_hi.key()} (halo, axis {axn})")
+                ctx.check(t_lo == "nonneg" and t_hi == "nonneg", "R-INTERIOR", f"{qual}:computes every kept pixel axis {axn}",
+                          f.loc(loop), f"pad ({pd[0].key()}, {pd[1].key()}) >= uncomputed rim ({ent['lo'].key()})",
+                          f"the kernel computes pixels `{ent['how']}` of the padded array (a rim of {ent['lo'].key()} is left "
+                          f"at zero) but only ({pd[0].key()}, {pd[1].key()}) samples are padded and cropped away along axis "
+                          f"{axn}: the outermost pixels of the returned Laplacian are zero", key_detail=f"cover{axn}")
+
+
+_FRESH_CALLS = {"copy", "zeros_like", "empty_like", "ones_like", "full_like", "zeros", "empty", "ones", "full"}
+_ALIAS_CALLS = {"asarray", "ascontiguousarray", "asanyarray", "view", "reshape", "ravel"}
+
+
+def _buffer_class(e: ast.expr, inputs: set[str]):
+    """'fresh' / 'alias' / None for the expression a buffer is created from."""
+    if isinstance(e, ast.Name):
+        return "alias" if e.id in inputs else None
+    if isinstance(e, ast.Call):
+        s = last_attr(e)
+        if s in _FRESH_CALLS:
+            return "fresh"
+        if s == "array":
+            c = kw(e, "copy")
+            if c is None or (isinstance(c, ast.Constant) and c.value is True):
+                return "fresh"
+        if s in _ALIAS_CALLS:
+            src = e.args[0] if (isinstance(e.func, ast.Attribute) and isinstance(e.func.value, ast.Name) and
+                                e.func.value.id not in inputs and e.args) else (
+                e.func.value if isinstance(e.func, ast.Attribute) else None)
+            if src is not None:
+                return _buffer_class(src, inputs) if not isinstance(src, ast.Name) else (
+                    "alias" if src.id in inputs else None)
+    return None
+
+
+def _is_jitted(k: ast.FunctionDef) -> bool:
+    for d in k.decorator_list:
+        t = dotted(d.func if isinstance(d, ast.Call) else d) or ""
+        if t.split(".")[-1] in ("jit", "njit", "vectorize", "guvectorize", "stencil"):
+            return True
+    return False
+
+
+def _stored_arrays(k: ast.FunctionDef) -> dict[str, list]:
+    out: dict[str, list] = {}
+    for st in ast.walk(k):
+        if isinstance(st, ast.Assign) and isinstance(st.targets[0], ast.Subscript) and isinstance(st.targets[0].value, ast.Name):
+            out.setdefault(st.targets[0].value.id, []).append(st)
+    return out
+
+
+def _kernel_out(ctx, f: FuncInfo, kernels) -> dict:
+    """R-KERNELOUT.  -> {kernel name: (input parameter, output parameter or None)}"""
+    roles = {}
+    known = {k.name for k, _ in kernels}
+    for k, _chain in _own_nested(f.node):
+        if not _is_jitted(k) or not k.args.args:
+            continue
+        stores = _stored_arrays(k)
+        if not stores:
+            continue
+        qual = f"{f.qualname}.{k.name}"
+        ctx.check(k.name in known, "R-KERNELOUT", f"{qual}:accumulates the stencil", f.loc(k),
+                  "the compiled kernel accumulates coefficient x sample over the stencil offsets",
+                  "the compiled kernel stores into its output but no loop accumulates coefficient x shifted sample of "
+                  "its input: the Laplacian it returns does not depend on the neighbouring samples (it is zero / the "
+                  "initial value everywhere)", key_detail="accumulates")
+    for k, (by_axis, sym, loop, kv, coefs, half) in kernels:
+        qual = f"{f.qualname}.{k.name}"
+        arr = k.args.args[0].arg
+        params = [a.arg for a in k.args.args]
+        par = _parents(k)
+        accs = {st.target.id for st in loop.body if isinstance(st, ast.AugAssign) and isinstance(st.target, ast.Name)}
+        pix = [st for name, sts in _stored_arrays(k).items() for st in sts
+               if isinstance(st.value, ast.Name) and st.value.id in accs]
+        if len(pix) != 1:
+            raise AnalysisError(f"{qual}: expected exactly one store of the accumulated value, found {len(pix)}")
+        st = pix[0]
+        out = st.targets[0].value.id
+        # the stored pixel is the pixel the offsets are centred on
+        geo_arr, dims, axes, klo, khi, gv = _kernel_geometry(f, k, loop, kv)
+        idx = st.targets[0].slice.elts if isinstance(st.targets[0].slice, ast.Tuple) else [st.targets[0].slice]
+        same = len(idx) == len(dims) and all(isinstance(e, ast.Name) and e.id == axes[p]["var"] for p, e in enumerate(idx)
+                                             if p in axes)
+        ctx.check(same, "R-KERNELOUT", f"{qual}:stores at the centre pixel", f.loc(st),
+                  f"the sum over offsets around pixel ({', '.join(axes[p]['var'] for p in sorted(axes))}) is stored at that pixel",
+                  f"the accumulated sum is stored at `{norm_text(st.targets[0])}` although the offsets are centred on "
+                  f"({', '.join(axes[p]['var'] for p in sorted(axes))})", key_detail="centre")
+        inside = _in_body(par, st, loop, "body")
+        if inside:
+            raise AnalysisError(f"{qual}: the store is inside the offset loop")
+        if out in params:
+            roles[k.name] = (arr, out)
+            continue
+        roles[k.name] = (arr, None)
+        defs = [s for s in ast.walk(k) if isinstance(s, ast.Assign) and isinstance(s.targets[0], ast.Name)
+                and s.targets[0].id == out]
+        if len(defs) != 1:
+            raise AnalysisError(f"{qual}: output buffer has {len(defs)} definitions")
+        cls_ = _buffer_class(defs[0].value, {arr})
+        if cls_ is None:
+            raise AnalysisError(f"{qual}: cannot classify the output buffer `{norm_text(defs[0].value)[:40]}`")
+        ctx.check(cls_ == "fresh", "R-KERNELOUT", f"{qual}:output buffer is not the input", f.loc(defs[0]),
+                  f"output = `{norm_text(defs[0].value)}` is a buffer of its own",
+                  f"the output buffer is `{norm_text(defs[0].value)}`, the input array itself: clearing and filling it "
+                  "overwrites the samples the stencil still has to read (and the caller's wave)", key_detail="alias")
+    return roles
+
+
+def _fold(e: ast.expr, env: dict):
+    from ..model import fold_constant
+
+    return fold_constant(e, env)
+
+
+def _ceil_div(e: ast.expr):
+    """(numerator, denominator) of ceil(a / b), (a + b - 1) // b or -(-a // b)."""
+    if isinstance(e, ast.Call) and last_attr(e) == "ceil" and len(e.args) == 1 and isinstance(e.args[0], ast.BinOp) \
+            and isinstance(e.args[0].op, ast.Div):
+        return e.args[0].left, e.args[0].right
+    if isinstance(e, ast.Call) and call_name(e) == "int" and len(e.args) == 1:
+        return _ceil_div(e.args[0])
+    if isinstance(e, ast.UnaryOp) and isinstance(e.op, ast.USub) and isinstance(e.operand, ast.BinOp) and \
+            isinstance(e.operand.op, ast.FloorDiv) and isinstance(e.operand.left, ast.UnaryOp) and \
+            isinstance(e.operand.left.op, ast.USub):
+        return e.operand.left.operand, e.operand.right
+    return None
+
+
+def _launch(ctx, f: FuncInfo, kernels, roles) -> None:
+    """R-LAUNCH for every kernel that writes into a buffer passed by its caller."""
+    nested = _own_nested(f.node)
+    for k, (by_axis, sym, loop, kv, coefs, half) in kernels:
+        if roles.get(k.name, (None, None))[1] is None:
+            continue
+        kin, kout = roles[k.name]
+        kparams = [a.arg for a in k.args.args]
+        qual = f"{f.qualname}.{k.name}"
+        # the wrapper: a nested function that mentions the kernel
+        users = [w for w, _ in nested if w is not k and any(isinstance(n, ast.Name) and n.id == k.name for n in ast.walk(w))]
+        ctx.require(len(users) <= 1, f"{qual}: used by {len(users)} functions")
+        # functions that return a buffer nobody writes: the device branch hands back zeros
+        for w, _ in nested:
+            if w is k or _is_jitted(w):
+                continue
+            dfw = DataFlow(w)
+            for r in walk_no_nested(w):
+                if not (isinstance(r, ast.Return) and isinstance(r.value, ast.Name)):
+                    continue
+                d = dfw.single_def(dfw.cfg.node_of(r).idx, r.value.id)
+                if d is None or not isinstance(d.value, ast.Call) or last_attr(d.value) not in (
+                        "zeros_like", "empty_like", "zeros", "empty"):
+                    continue
+                name = r.value.id
+                written = any(
+                    (isinstance(n, ast.Call) and any(isinstance(a, ast.Name) and a.id == name for a in
+                                                     list(n.args) + [x.value for x in n.keywords])) or
+                    (isinstance(n, (ast.Assign, ast.AugAssign)) and any(
+                        isinstance(t, ast.Subscript) and isinstance(t.value, ast.Name) and t.value.id == name
+                        for t in (n.targets if isinstance(n, ast.Assign) else [n.target]))) or
+                    (isinstance(n, ast.AugAssign) and isinstance(n.target, ast.Name) and n.target.id == name)
+                    for n in walk_no_nested(w) if n is not d.value)
+                ctx.check(written, "R-LAUNCH", f"{f.qualname}.{w.name}:returned buffer is written", f.loc(r),
+                          f"`{norm_text(d.value)}` is handed to a kernel / written before it is returned",
+                          f"the function returns the buffer `{norm_text(d.value)}` that nothing has written: the Laplacian "
+                          "on this device is identically zero (uninitialised)", key_detail="unwritten")
+        if not users:
+            continue
+        w = users[0]
+        wq = f"{f.qualname}.{w.name}"
+        dfw = DataFlow(w)
+        launches = [c for c in walk_no_nested(w) if isinstance(c, ast.Call) and isinstance(c.func, ast.Subscript)
+                    and isinstance(c.func.value, ast.Name) and c.func.value.id == k.name]
+        ctx.require(len(launches) == 1, f"{wq}: expected one launch of {k.name}, found {len(launches)}")
+        lc = launches[0]
+        lnode = next(n.idx for n in dfw.cfg.nodes if n.kind == "stmt" and n.ast is not None and
+                     any(x is lc for x in ast.walk(n.ast)))
+        ctx.require(len(lc.args) == len(kparams) and not lc.keywords, f"{wq}: launch arguments do not match the kernel")
+        bound = dict(zip(kparams, lc.args))
+        win = w.args.args[0].arg if w.args.args else None
+        rets = [r for r in walk_no_nested(w) if isinstance(r, ast.Return) and r.value is not None]
+        ctx.require(len(rets) == 1 and isinstance(rets[0].value, ast.Name), f"{wq}: expected `return <buffer>`")
+        rname = rets[0].value.id
+        a_in, a_out = bound[kin], bound[kout]
+
+        def is_input(e):
+            if isinstance(e, ast.Name) and e.id == win:
+                return True
+            if isinstance(e, ast.Name):
+                d = dfw.single_def(lnode, e.id)
+                return d is not None and d.value is not None and _buffer_class(d.value, {win}) == "alias"
+            return False
+
+        okb = is_input(a_in) and isinstance(a_out, ast.Name) and a_out.id == rname and not is_input(a_out)
+        ctx.check(okb, "R-LAUNCH", f"{wq}:launch reads the input and writes the returned buffer", f.loc(lc),
+                  f"kernel({kin}={norm_text(a_in)}, {kout}={norm_text(a_out)}), returns {rname}",
+                  f"the kernel reads its parameter `{kin}` and writes `{kout}`, but it is launched with {kin}="
+                  f"`{norm_text(a_in)}` and {kout}=`{norm_text(a_out)}` while the wrapper's input is `{win}` and it returns "
+                  f"`{rname}`: the stencil is applied to the empty buffer and the input is overwritten", key_detail="binding")
+        # grid: blocks x threads covers the array along every thread axis
+        geo_arr, dims, axes, klo, khi, grid_vars = _kernel_geometry(f, k, loop, kv)
+        sl = lc.func.slice
+        ctx.require(isinstance(sl, ast.Tuple) and len(sl.elts) >= 2, f"{wq}: launch configuration not found")
+        try:
+            G = _seq_elements(dfw, lnode, sl.elts[0])
+            B = _seq_elements(dfw, lnode, sl.elts[1])
+        except AnalysisError as e:
+            raise AnalysisError(f"{wq}: {e}")
+        ctx.require(len(G) == len(B) == len(grid_vars) and Ellipsis not in G and Ellipsis not in B,
+                    f"{wq}: launch configuration is not {len(grid_vars)}-dimensional")
+        bname = sl.elts[1].id if isinstance(sl.elts[1], ast.Name) else None
+        nzw = FlowNormalizer(dfw, lnode)
+
+        def block_poly(e):
+            # threadsperblock[d] -> the d-th element of the block tuple
+            if isinstance(e, ast.Subscript) and isinstance(e.value, ast.Name) and e.value.id == bname and \
+                    isinstance(e.slice, ast.Constant) and isinstance(e.slice.value, int) and e.slice.value < len(B):
+                return nzw.norm(B[e.slice.value])
+            return nzw.norm(e)
+
+        cenv: dict = {}
+        for st_ in w.body:  # literal locals of the wrapper, folded in order
+            if isinstance(st_, ast.Assign) and len(st_.targets) == 1 and isinstance(st_.targets[0], ast.Name):
+                try:
+                    cenv[st_.targets[0].id] = _fold(st_.value, cenv)
+                except Exception:
+                    cenv.pop(st_.targets[0].id, None)
+
+        def block_const(e):
+            try:
+                v = _fold(e, cenv)
+            except Exception:
+                return None
+            return v if isinstance(v, (int, float)) and not isinstance(v, bool) else None
+
+        def shape_axis(e):
+            # a.shape[d] or a name unpacked from a.shape -> d
+            if isinstance(e, ast.Subscript) and isinstance(e.value, ast.Attribute) and e.value.attr == "shape" and \
+                    is_input(e.value.value) and isinstance(e.slice, ast.Constant) and isinstance(e.slice.value, int):
+                return e.slice.value % len(dims)
+            if isinstance(e, ast.Name):
+                d = dfw.single_def(lnode, e.id)
+                if d is not None:
+                    stn = dfw.cfg.nodes[d.node].ast
+                    if isinstance(stn, ast.Assign) and isinstance(stn.targets[0], ast.Tuple) and isinstance(
+                            stn.value, ast.Attribute) and stn.value.attr == "shape" and is_input(stn.value.value):
+                        names = [x.id if isinstance(x, ast.Name) else None for x in stn.targets[0].elts]
+                        if e.id in names and len(names) == len(dims):
+                            return names.index(e.id)
+                    if d.value is not None and d.kind == "assign" and isinstance(stn, ast.Assign) and \
+                            isinstance(stn.targets[0], ast.Name):
+                        return shape_axis(d.value)
+            return None
+
+        for t, gv in enumerate(grid_vars):
+            pos = [p for p, ent in axes.items() if ent["var"] == gv]
+            if len(pos) != 1:
+                raise AnalysisError(f"{qual}: thread index `{gv}` does not index exactly one array axis")
+            g = G[t]
+            if isinstance(g, ast.Name):
+                dg = dfw.single_def(lnode, g.id)
+                if dg is not None and dg.value is not None:
+                    g = dg.value
+            cd = _ceil_div(g)
+            if cd is None:
+                raise AnalysisError(f"{wq}: blocks along thread axis {t} `{norm_text(g)[:50]}` is not ceil(size / threads)")
+            sx = shape_axis(cd[0])
+            if sx is None:
+                raise AnalysisError(f"{wq}: `{norm_text(cd[0])}` is not a dimension of the input array")
+            tb, want = block_poly(cd[1]), nzw.norm(B[t])
+            enough = tb == want
+            if not enough:
+                c1, c2 = block_const(cd[1]), block_const(B[t])
+                if c1 is None or c2 is None:
+                    raise AnalysisError(f"{wq}: cannot compare the block sizes {tb.key()} and {want.key()}")
+                enough = c1 <= c2
+            ctx.check(sx == pos[0] and enough, "R-LAUNCH", f"{wq}:grid covers thread axis {t}", f.loc(lc),
+                      f"ceil(shape[{sx}] / {tb.key()}) blocks of {want.key()} threads cover array axis {pos[0]}",
+                      f"thread axis {t} indexes array axis {pos[0]} with {want.key()} threads per block, but the number of "
+                      f"blocks is ceil(shape[{sx}] / {tb.key()}): blocks x threads does not cover the axis for every array "
+                      "shape, the uncovered pixels keep the zero of the output buffer", key_detail=f"grid{t}")
+
+
+def _wrapped(ctx, f: FuncInfo, df: DataFlow) -> None:
+    """R-WRAPPED: with the boundary mode LaplaceOperator asks for, the builder returns the boundary-wrapped stencil."""
+    from ..model import NotConstant, fold_constant
+
+    repo = ctx.repo
+    gs = repo.method(FD, "LaplaceOperator", "_get_new_stencil")
+    calls = [c for c in walk_no_nested(gs.node) if isinstance(c, ast.Call) and call_name(c) == f.name]
+    ctx.require(len(calls) == 1, f"{gs.qualname}: call of {f.name} not found")
+    b = bind_args(calls[0], f)
+    env = {}
+    for p_, d_ in f.defaults().items():
+        try:
+            env[p_] = fold_constant(d_)
+        except Exception:
+            pass
+    for p_, a_ in b.items():
+        try:
+            env[p_] = fold_constant(a_)
+        except Exception:
+            env.pop(p_, None)
+    # the boundary wrapper: a nested function that calls a callable received as a parameter of an enclosing definition
+    bw = [(w, chain) for w, chain in _own_nested(f.node) if any(
+        isinstance(c, ast.Call) and isinstance(c.func, ast.Name) and
+        c.func.id in {a.arg for e_ in chain for a in e_.args.args} for c in walk_no_nested(w))]
+    ctx.require(len(bw) >= 1, f"{f.qualname}: boundary wrapper not found")
+    wrap_names = {w.name for w, _ in bw} | {c.name for _, chain in bw for c in chain}
+
+    def taken(body):
+        """the return statement reached in a statement list under env (None: falls through)."""
+        for st in body:
+            if isinstance(st, ast.Return):
+                return st
+            if isinstance(st, ast.If):
+                try:
+                    v = fold_constant(st.test, env)
+                except NotConstant:
+                    if any(isinstance(x, ast.Return) for x in ast.walk(st)):
+                        raise AnalysisError(f"{f.qualname}: cannot evaluate `{norm_text(st.test)}` for the arguments of "
+                                            f"{gs.qualname}")
+                    continue
+                r = taken(st.body if v else st.orelse)
+                if r is not None:
+                    return r
+        return None
+
+    r = taken(f.body)
+    ctx.require(r is not None and r.value is not None, f"{f.qualname}: no return reached")
+    used = {n.id for n in ast.walk(r.value) if isinstance(n, ast.Name)}
+    rn = df.cfg.node_of(r).idx
+    for _ in range(4):  # temporaries of the returned expression
+        for nm in sorted(used):
+            d = df.single_def(rn, nm)
+            if d is not None and d.value is not None and d.kind in ("assign", "walrus"):
+                used |= {n.id for n in ast.walk(d.value) if isinstance(n, ast.Name)}
+    mode_txt = ", ".join(f"{k_}={env[k_]!r}" for k_ in sorted(env) if isinstance(env[k_], str))
+    ctx.check(bool(used & wrap_names), "R-WRAPPED", f"{f.qualname}:periodic stencil for the operator", f.loc(r),
+              f"for {mode_txt} the builder returns `{norm_text(r.value)[:70]}` (through the boundary wrapper)",
+              f"for the arguments LaplaceOperator passes ({mode_txt}) the builder returns `{norm_text(r.value)[:70]}`, the "
+              "bare kernel without the periodic halo: the rim of every wave is left at zero, a periodic plane wave is not "
+              "an eigenfunction", key_detail="wrapped")
+
+
+# ---------------------------------------------------------------------------------------------- exponential series
+_SERIES_FUNCS = ("_multislice_exponential_series", "conventional_operator", "propagator_taylor_series", "full_series",
+                 "multislice_step")
+
+
+def _adds_to(st: ast.stmt, acc: str):
+    """name of the variable the statement adds to `acc` (acc += t, acc = acc + t, acc = t + acc)."""
+    if isinstance(st, ast.AugAssign) and isinstance(st.op, ast.Add) and isinstance(st.target, ast.Name) and \
+            st.target.id == acc and isinstance(st.value, ast.Name):
+        return st.value.id
+    if isinstance(st, ast.Assign) and len(st.targets) == 1 and isinstance(st.targets[0], ast.Name) and \
+            st.targets[0].id == acc and isinstance(st.value, ast.BinOp) and isinstance(st.value.op, ast.Add):
+        l, r = st.value.left, st.value.right
+        if isinstance(l, ast.Name) and isinstance(r, ast.Name) and acc in (l.id, r.id) and l.id != r.id:
+            return r.id if l.id == acc else l.id
+    return None
+
+
+def _defines(st: ast.stmt, name: str) -> bool:
+    return any(isinstance(s, ast.Assign) and any(isinstance(t, ast.Name) and t.id == name for t in s.targets)
+               for s in ast.walk(st))
+
+
+def _expseries(ctx) -> None:
+    repo = ctx.repo
+    f = repo.function(FD, "_multislice_exponential_series")
+    df = DataFlow(f.node)
+    rets = [r for r in walk_no_nested(f.node) if isinstance(r, ast.Return) and r.value is not None]
+    ctx.require(rets and all(isinstance(r.value, ast.Name) for r in rets) and len({r.value.id for r in rets}) == 1,
+                f"{f.qualname}: the result is not one accumulated variable")
+    acc = rets[0].value.id
+    ctx.require(acc in f.params, f"{f.qualname}: the accumulated result `{acc}` is not the incoming wave parameter")
+    adds = [(st, _adds_to(st, acc)) for st in walk_no_nested(f.node) if isinstance(st, ast.stmt) and _adds_to(st, acc)]
+    ctx.require(len(adds) >= 1 and len({t for _, t in adds}) == 1, f"{f.qualname}: cannot identify the series term added to `{acc}`")
+    term = adds[0][1]
+    other_writes = [st for st in walk_no_nested(f.node) if isinstance(st, (ast.Assign, ast.AugAssign)) and
+                    not _adds_to(st, acc) and any(isinstance(t, ast.Name) and t.id == acc for t in
+                                                  (st.targets if isinstance(st, ast.Assign) else [st.target]))]
+    ctx.require(not other_writes, f"{f.qualname}: `{acc}` is also written by `{norm_text(other_writes[0])[:50]}`" if other_writes else "")
+    loops = [l for l in walk_no_nested(f.node) if isinstance(l, ast.For) and isinstance(l.target, ast.Name) and
+             isinstance(l.iter, ast.Call) and call_name(l.iter) == "range" and any(_defines(s, term) for s in l.body)]
+    ctx.require(len(loops) == 1 and any(l is loops[0] for l in f.body), f"{f.qualname}: the series loop was not found")
+    L = loops[0]
+    iv = L.target.id
+    rng = _range_of(L)
+    ctx.require(rng is not None, f"{f.qualname}: series loop is not range(lo, hi)")
+    callees = {n: repo.function(FD, n) for n in _SERIES_FUNCS if n in repo.module(FD).functions}
+
+    def analyse(value: ast.expr):
+        calls = []
+
+        def hook(nz, c):
+            if call_name(c) in callees:
+                calls.append(c)
+                return Poly.atom("OP")
+            return None
+        return Normalizer(call_hook=hook).norm(value), calls
+
+    def groups(block):
+        return [(j, st) for j, st in enumerate(block) if not isinstance(st, ast.For) and _defines(st, term)]
+
+    pre_calls, loop_calls = [], []
+    n_pre = 0
+    for where, block in (("first term", f.body[: next(j for j, s in enumerate(f.body) if s is L)]), ("loop", L.body)):
+        gs = groups(block)
+        ctx.require(len(gs) >= 1, f"{f.qualname}: no definition of the series term in the {where} part")
+        for gi, (j, st) in enumerate(gs):
+            end = gs[gi + 1][0] if gi + 1 < len(gs) else len(block)
+            added = any(_adds_to(s, acc) == term for later in block[j + 1:end] for s in ast.walk(later)
+                        if isinstance(s, ast.stmt))
+            ctx.check(added, "R-EXPSERIES", f"{f.qualname}:{where} is added to the result", f.loc(st),
+                      f"`{acc} += {term}` follows the computation of the term",
+                      f"the series term computed in the {where} part is never added to `{acc}` before it is overwritten or "
+                      "the function returns: the result is not sum_k Op^k/k! applied to the wave, so vacuum propagation is "
+                      "not unitary", key_detail=f"added-{where.split()[0]}")
+            if where == "first term":
+                n_pre += 1
+            for s in ast.walk(st):
+                if not (isinstance(s, ast.Assign) and any(isinstance(t, ast.Name) and t.id == term for t in s.targets)):
+                    continue
+                p, calls = analyse(s.value)
+                ctx.require(len(calls) == 1, f"{f.qualname}: `{norm_text(s.value)[:50]}` does not apply one operator")
+                (pre_calls if where == "first term" else loop_calls).append(calls[0])
+                if where == "first term":
+                    want, wtxt = Poly.atom("OP"), "Op(wave)"
+                else:
+                    want, wtxt = Poly.atom("OP") * Poly.atom(iv).inverse(), "Op(previous term) / k"
+                ctx.check(p == want, "R-EXPSERIES", f"{f.qualname}:{where} {call_name(calls[0])}:factorial", f.loc(s),
+                          f"term = {wtxt}",
+                          f"the {where} term is `{p.key().replace('OP', call_name(calls[0]) + '(..)')}` instead of {wtxt} "
+                          f"(k = `{iv}`): the sum is not the exponential series, it does not converge to a unitary "
+                          "propagator", key_detail=f"factorial-{where.split()[0]}")
+    lo = rng[0].const_value()
+    ctx.require(lo is not None, f"{f.qualname}: series loop start `{rng[0].key()}` is not a literal")
+    ctx.check(lo == 2, "R-EXPSERIES", f"{f.qualname}:loop starts at k = 2", f.loc(L),
+              "one term before the loop, the loop index starts at 2",
+              f"one term (k = 1) is computed before the loop but the loop index used as the divisor starts at {lo}: the "
+              "terms are not Op^k/k!", key_detail="start")
+    # the operator is applied to the wave (first term) and to the previous term (loop), all other arguments agree
+    for pc in pre_calls:
+        cf = callees[call_name(pc)]
+        b0 = bind_args(pc, cf)
+        wave_params = [p_ for p_, a_ in b0.items() if isinstance(a_, ast.Name) and a_.id == acc]
+        sib = [c for c in loop_calls if call_name(c) == call_name(pc)]
+        ctx.require(len(sib) == 1, f"{f.qualname}: {call_name(pc)} is applied {len(sib)} times in the loop")
+        b1 = bind_args(sib[0], cf)
+        recur = len(wave_params) == 1 and isinstance(b1.get(wave_params[0]), ast.Name) and b1[wave_params[0]].id == term
+        rest_same = set(b0) == set(b1) and all(norm_text(b0[p_]) == norm_text(b1[p_]) for p_ in b0 if p_ not in wave_params)
+        ctx.check(recur and rest_same, "R-EXPSERIES", f"{f.qualname}:{cf.name} applied to the previous term", f.loc(sib[0]),
+                  f"first term {cf.name}({wave_params[0] if wave_params else '?'}={acc}, ...), loop "
+                  f"{cf.name}({wave_params[0] if wave_params else '?'}={term}, ...), other arguments identical",
+                  f"before the loop `{norm_text(pc)[:70]}`, inside `{norm_text(sib[0])[:70]}`: the loop does not apply the same "
+                  f"operator to the previous term `{term}` (the parameter that receives `{acc}` before the loop must receive "
+                  f"`{term}` inside, every other argument must be the same)", key_detail=f"recur-{cf.name}")
+    # ---- R-RELATIVE: convergence / divergence tests are invariant under scaling of the wave
+    def amp_src(e):
+        # abs(X).sum(), xp.sum(xp.abs(X)) -> X
+        if isinstance(e, ast.Call) and last_attr(e) == "sum":
+            inner = e.func.value if isinstance(e.func, ast.Attribute) and not (
+                isinstance(e.func.value, ast.Name) and e.args) else (e.args[0] if e.args else None)
+            if isinstance(inner, ast.Call) and last_attr(inner) in ("abs", "absolute") and len(inner.args) == 1 and \
+                    isinstance(inner.args[0], ast.Name):
+                return inner.args[0].id
+        return None
+
+    def amp_hook(nz, c):
+        s = amp_src(c)
+        if s in (acc, term):
+            return Poly.atom("AMP:" + s)
+        return None
+
+    n_tests = 0
+    for st in walk_no_nested(f.node):
+        if not isinstance(st, ast.If):
+            continue
+        at = df.cfg.node_of(st).idx
+        for c in ast.walk(st.test):
+            if not (isinstance(c, ast.Compare) and len(c.ops) == 1):
+                continue
+            sides = [FlowNormalizer(df, at, call_hook=amp_hook).norm(x) for x in (c.left, c.comparators[0])]
+            degs = set()
+            for p in sides:
+                for mono in p.terms:
+                    degs.add(sum((e for a, e in mono if a.startswith("AMP:")), Fraction(0)))
+            if not any(a.startswith("AMP:") for p in sides for a in p.atoms()):
+                continue
+            n_tests += 1
+            ctx.check(len(degs) == 1, "R-RELATIVE", f"{f.qualname}:test {n_tests} is scale invariant", f.loc(st),
+                      f"`{norm_text(c)}` compares quantities of the same degree in the wave amplitude",
+                      f"`{norm_text(c)}` mixes degrees {sorted(str(d) for d in degs)} in the wave amplitude: whether the series "
+                      "stops depends on the normalisation of the wave, so for some amplitudes it stops before the "
+                      "terms are negligible (intensity not preserved) or never", key_detail=f"relative{n_tests}")
+    ctx.require(n_tests >= 1, f"{f.qualname}: no convergence test on the term amplitude found")
+    # ---- the step propagates the wave it was given
+    ms = repo.function(FD, "multislice_step")
+    for st in walk_no_nested(ms.node):
+        if isinstance(st, ast.Assign) and isinstance(st.value, ast.Call) and call_name(st.value) == f.name:
+            b = bind_args(st.value, f)
+            tgt, arg = dotted(st.targets[0]), dotted(b.get(acc)) if b.get(acc) is not None else None
+            if tgt is None or arg is None:
+                raise AnalysisError(f"{ms.qualname}: cannot compare `{norm_text(st.targets[0])}` with the propagated argument")
+            ctx.check(tgt == arg, "R-EXPSERIES", f"{ms.qualname}:series applied to the wave it replaces", ms.loc(st),
+                      f"{tgt} = series({acc}={arg}, ...)",
+                      f"`{tgt}` is replaced by the series applied to `{arg}`: the propagated array is not the wave's own "
+                      "array", key_detail="propagated")
+
+
+def _operator_roles(ctx) -> None:
+    repo = ctx.repo
+    mod = repo.module(FD)
+    funcs = {n: mod.functions[n] for n in _SERIES_FUNCS if n in mod.functions}
+    roles: dict[tuple[str, str], str] = {}
+    for n, fi in funcs.items():
+        for p_ in fi.params:
+            called = any(isinstance(c, ast.Call) and isinstance(c.func, ast.Name) and c.func.id == p_
+                         for c in walk_no_nested(fi.node))
+            arith = any(isinstance(b, ast.BinOp) and any(isinstance(o, ast.Name) and o.id == p_ for o in (b.left, b.right))
+                        and isinstance(b.op, (ast.Mult, ast.Add, ast.Sub)) for b in walk_no_nested(fi.node)) or any(
+                isinstance(a, ast.AugAssign) and isinstance(a.target, ast.Name) and a.target.id == p_
+                for a in walk_no_nested(fi.node))
+            if called and not arith:
+                roles[(n, p_)] = "operator"
+            elif arith and not called and (fi.node.args.defaults is not None):
+                ann = next((a.annotation for a in fi.node.args.args if a.arg == p_), None)
+                if ann is not None and "ndarray" in norm_text(ann):
+                    roles[(n, p_)] = "array"
+    changed = True
+    while changed:
+        changed = False
+        for n, fi in funcs.items():
+            for c in walk_no_nested(fi.node):
+                if isinstance(c, ast.Call) and call_name(c) in funcs:
+                    for p_, a_ in bind_args(c, funcs[call_name(c)]).items():
+                        r = roles.get((call_name(c), p_))
+                        if r and isinstance(a_, ast.Name) and a_.id in fi.params and (n, a_.id) not in roles:
+                            roles[(n, a_.id)] = r
+                            changed = True
+    n_calls = 0
+    for n, fi in funcs.items():
+        dfn = DataFlow(fi.node)
+        for st in walk_no_nested(fi.node):
+            if not isinstance(st, ast.stmt) or isinstance(st, (ast.If, ast.For, ast.While, ast.With, ast.Try)):
+                continue
+            for c in ast.walk(st):
+                if not (isinstance(c, ast.Call) and call_name(c) in funcs):
+                    continue
+                cf = funcs[call_name(c)]
+                try:
+                    at = dfn.cfg.node_of(st).idx
+                except Exception:
+                    continue
+                n_calls += 1
+                bad = []
+                for p_, a_ in bind_args(c, cf).items():
+                    want = roles.get((cf.name, p_))
+                    if want is None:
+                        continue
+                    have = None
+                    if isinstance(a_, ast.Name) and (n, a_.id) in roles:
+                        have = roles[(n, a_.id)]
+                    elif isinstance(a_, ast.Name):
+                        d = dfn.single_def(at, a_.id)
+                        if d is not None and isinstance(d.value, ast.Call) and last_attr(d.value) == "get_stencil":
+                            have = "operator"
+                        elif d is not None and isinstance(d.value, ast.BinOp):
+                            have = "array"
+                    elif isinstance(a_, ast.Attribute) and a_.attr in ("_array", "array"):
+                        have = "array"
+                    if have is not None and have != want:
+                        bad.append((p_, norm_text(a_), have, want))
+                ctx.check(not bad, "R-OPERATOR-ROLE", f"{fi.qualname}:call of {cf.name}", fi.loc(c),
+                          "the Laplace operator argument is a callable stencil, the wave and transmission arguments are arrays",
+                          "; ".join(f"parameter `{p_}` of {cf.name} is used as {'a callable operator' if w == 'operator' else 'an array'} "
+                                    f"but receives `{t}`, {'a callable operator' if h == 'operator' else 'an array'}"
+                                    for p_, t, h, w in bad) + ": the Laplacian is never applied to the wave",
+                          key_detail="+".join(p_ for p_, *_ in bad))
+    ctx.require(n_calls >= 4, f"{FD}: only {n_calls} calls between the series functions found")
+
+
+def _forwarding(ctx) -> None:
+    """R-SYMMETRIC (fall-back): beyond the literal tables the coefficients are computed; the computing function must
+    receive the requested accuracy as its accuracy and the derivative order as its derivative."""
+    repo = ctx.repo
+    fdc = repo.function(FD, "finite_difference_coefficients")
+    mod = repo.module(FD)
+    for c in walk_no_nested(fdc.node):
+        if not (isinstance(c, ast.Call) and isinstance(c.func, ast.Name) and c.func.id in mod.functions):
+            continue
+        cf = mod.functions[c.func.id]
+        shared = [p_ for p_ in fdc.params if p_ in cf.params]
+        if len(shared) < 2:
+            continue
+        b = bind_args(c, cf)
+        crossed = [(p_, b[p_].id) for p_ in shared if isinstance(b.get(p_), ast.Name) and b[p_].id in shared
+                   and b[p_].id != p_]
+        ctx.check(not crossed, "R-SYMMETRIC", f"{fdc.qualname}:computed fall-back {cf.name}", fdc.loc(c),
+                  f"{cf.name}({', '.join(f'{p_}={norm_text(b[p_])}' for p_ in shared if p_ in b)})",
+                  f"`{norm_text(c)}` passes " + ", ".join(f"`{a_}` as `{p_}`" for p_, a_ in crossed) +
+                  f" of {cf.name}: beyond the literal tables a stencil of another derivative order and accuracy is "
+                  "returned, its plane-wave eigenvalue is not that of the requested Laplacian", key_detail="fallback")
+
+
+_inner_run_c37c = run
+
+
+def run(ctx) -> None:  # noqa: F811
+    ctx.rule("R-INTERIOR", "with the pad widths (b, a) of the boundary wrapper, the pixel ranges [lo, hi) and the offset "
+             "range [-n, n] of every stencil kernel as polynomials in the half width n and the array dimensions: "
+             "lo - n >= 0 and hi + n <= size (every sample read and every pixel written lies inside the padded array), "
+             "b >= lo and a >= size - hi (every pixel that survives the crop was computed), and the crop is "
+             "[b : -a] (the result is the Laplacian on the original grid).  Otherwise the rim of the result is zero or "
+             "memory outside the array is touched, and a periodic plane wave is not an eigenfunction")
+    ctx.rule("R-KERNELOUT", "every compiled kernel that stores into an output accumulates coefficient x shifted sample, "
+             "stores the sum at the pixel the offsets are centred on, and writes a buffer that is not its input")
+    ctx.rule("R-LAUNCH", "the device wrapper launches the kernel with (kernel's read parameter = wrapper input, kernel's "
+             "written parameter = the buffer the wrapper returns), blocks x threads covers the array along every "
+             "thread axis (blocks[d] = ceil(shape[axis(d)] / threads[d])), and no function returns a zero-initialised "
+             "buffer nothing has written")
+    ctx.rule("R-WRAPPED", "for the arguments LaplaceOperator._get_new_stencil passes (folded constants), the builder "
+             "returns the stencil through the periodic boundary wrapper, not the bare kernel")
+    ctx.rule("R-EXPSERIES", "_multislice_exponential_series computes wave + sum_k T_k with T_1 = Op(wave), "
+             "T_k = Op(T_{k-1}) / k for k = 2.. : every computed term is added to the result, the divisor is the loop "
+             "index starting at 2, the operator call inside the loop equals the one before it except that the previous "
+             "term replaces the wave; multislice_step replaces the wave's array by the series of that same array.  "
+             "Necessary for exp(i dz H) with Hermitian H, i.e. for intensity preservation in vacuum")
+    ctx.rule("R-RELATIVE", "every test of the term amplitude is homogeneous in the wave amplitude (|term|/|wave| vs "
+             "tolerance, |term| vs |wave|): convergence must not depend on the normalisation of the wave")
+    ctx.rule("R-OPERATOR-ROLE", "across the calls between the series functions the parameter that is called as the "
+             "Laplace stencil receives a callable and the wave / transmission parameters receive arrays")
+    pending = None
+    try:
+        repo = ctx.repo
+        f = repo.function(FD, "_laplace_operator_stencil")
+        df = DataFlow(f.node)
+        kernels = []
+        for k in _nested_functions(f.node):
+            try:
+                r = _kernel_terms(ctx, f, k)
+            except AnalysisError:
+                r = None
+            if r is not None:
+                kernels.append((k, r))
+        roles = _kernel_out(ctx, f, kernels)
+        if kernels:
+            halves = {r[5] for _, r in kernels}
+            if len(halves) == 1:
+                _interior(ctx, f, df, kernels, next(iter(halves)))
+            _launch(ctx, f, kernels, roles)
+        _wrapped(ctx, f, df)
+    except AnalysisError as e:
+        pending = e
+    for part in (_expseries, _operator_roles, _forwarding):
+        try:
+            part(ctx)
+        except AnalysisError as e:
+            pending = pending or e
+    _inner_run_c37c(ctx)
+    if pending is not None:
+        raise pending
